@@ -49,6 +49,44 @@ pub proof fn lemma_lbv_bound(s: Seq<u8>, k: int)
         assert(b * w >= 0) by(nonlinear_arith) requires b >= 0, w > 0;
     }
 }
+// digit i of a base-256 string's value is its byte i
+pub proof fn lemma_lbv_digit(s: Seq<u8>, k: int, i: int)
+    requires 0 <= i < k <= s.len()
+    ensures (lbv(s, k) / p256(i)) % 256 == s[i] as int
+    decreases k
+{
+    lemma2_to64();
+    lemma_pow2_pos((8 * i) as nat);
+    let w = p256(i);
+    if k == i + 1 {
+        lemma_lbv_bound(s, i);
+        let lo = lbv(s, i); let b = s[i] as int;
+        assert(lbv(s, k) == b * w + lo) by(nonlinear_arith) requires lbv(s, k) == lo + b * w;
+        lemma_fundamental_div_mod_converse(lbv(s, k), w, b, lo);
+        lemma_small_mod(b as nat, 256);
+    } else {
+        lemma_lbv_digit(s, k - 1, i);
+        // adding a multiple of 256 * 256^i does not change digit i
+        let top = s[k - 1] as int;
+        let e = (k - 1 - i - 1) as nat;      // 256^(k-1) == 256^i * 256 * 256^e
+        lemma_pow2_adds((8 * i) as nat, 8);
+        lemma_pow2_adds((8 * (i + 1)) as nat, (8 * e) as nat);
+        lemma_pow2_pos((8 * e) as nat);
+        let pe = pow2((8 * e) as nat) as int;
+        assert(p256(k - 1) == w * 256 * pe);
+        let v0 = lbv(s, k - 1);
+        let m = top * pe;                      // lbv(s,k) == v0 + w * (256 * m)
+        assert(lbv(s, k) == w * (256 * m) + v0) by(nonlinear_arith) requires lbv(s, k) == v0 + top * (w * 256 * pe), m == top * pe;
+        lemma_lbv_bound(s, k - 1);
+        lemma_fundamental_div_mod(v0, w);
+        let q0 = v0 / w; let r0 = v0 % w;
+        lemma_mod_bound(v0, w);
+        assert(lbv(s, k) == w * (256 * m + q0) + r0) by(nonlinear_arith) requires lbv(s, k) == w * (256 * m) + v0, v0 == w * q0 + r0;
+        lemma_fundamental_div_mod_converse(lbv(s, k), w, 256 * m + q0, r0);
+        lemma_mod_multiples_vanish(m, q0, 256);
+        assert(256 * m + q0 == 256 * m + q0);
+    }
+}
 // eight more bytes are one more limb
 pub proof fn lemma_lbv_w8(s: Seq<u8>, i: int)
     requires 0 <= i, 8 * i + 8 <= s.len()
@@ -409,6 +447,46 @@ impl<const BITS: usize, const LIMBS: usize> Uint<BITS, LIMBS> {
         }/*-*/
 
         bytes
+    }
+//@ end
+    // ASSUMED (label A, memory layout on a little-endian target, same fact as for to_le_bytes): as_le_slice is
+    // `slice::from_raw_parts(self.limbs.as_ptr().cast(), Self::BYTES)`, the first BYTES bytes of the limb array - the base-256 digits
+    // of the value, least significant first (le_view names that byte string).  Kani: c06 byte / checked_byte harnesses per width.
+    pub uninterp spec fn le_view(self) -> Seq<u8>;
+    #[verifier::external_body]
+    pub proof fn axiom_le_view(self)
+        requires self.wf()
+        ensures self.le_view().len() == (BITS + 7) / 8, lbv(self.le_view(), ((BITS + 7) / 8) as int) == self.val()
+    {}
+    #[verifier::external_body]
+    pub fn as_le_slice(&self) -> (r: &[u8])
+        requires self.wf(), BITS <= usize::MAX - 63
+        ensures r@ == self.le_view()
+    { unimplemented!() }
+
+//@ extract expanded fn byte
+    // taken from rustc's expansion (the cfg(target_endian = "little") arm is the one compiled here); indexing out of range is the
+    // documented panic, i.e. `index < BYTES` is the precondition
+    pub fn byte(&self, index: usize) -> /*+*/(r:/*-*/ u8/*+*/)
+        requires self.wf(), BITS <= usize::MAX - 63, index < (BITS + 7) / 8
+        ensures r as int == (self.val() as int / p256(index as int)) % 256/*-*/
+    {
+        /*+*/proof { self.axiom_le_view(); lemma_lbv_digit(self.le_view(), ((BITS + 7) / 8) as int, index as int); }/*-*/
+        { self.as_le_slice()[index] }
+    }
+//@ end
+
+//@ extract src/bits.rs fn checked_byte
+    pub fn checked_byte(&self, index: usize) -> /*+*/(r:/*-*/ Option<u8>/*+*/)
+        requires self.wf(), BITS <= usize::MAX - 63
+        ensures (index < (BITS + 7) / 8) ==> r == Some(((self.val() as int / p256(index as int)) % 256) as u8),
+            (index >= (BITS + 7) / 8) ==> r.is_none()/*-*/
+    {
+        if index < Self::BYTES() {
+            Some(self.byte(index))
+        } else {
+            None
+        }
     }
 //@ end
 }
